@@ -24,7 +24,7 @@ RULE = ("strings from a redirect grammar: 24 keys (redirect-like in any case + l
 ASSUMPTIONS = ["bounded progress instead of 'eventually': nesting depth of one top-level call <= len(u)+2 and the non-recursive iteration is stationary within len(u)+2 steps",
                "provenance is lenient: a result must be u itself, or 'https://'+tail for a tail of u following a '/', or t / 'https://'+t / urljoin(u, t) for t the (once percent-decoded) value of a key=value of u whose key is one of the documented redirect-like names",
                "recursion limit lowered to 1200 so runaway recursion is observed as RecursionError, a per-run wall-clock watchdog is inconclusive only"]
-FLOORS = ["step-https", "step-http", "step-relative", "step-amp", "step-youtube", "step-none", "depth>=3", "self-referential", "empty-target", "lookalike-key", "key-in-host", "recursive-checked", "fixed-point-checked"]
+FLOORS = ["step-https", "step-http", "step-relative", "step-amp", "step-youtube", "step-none", "depth>=3", "self-referential", "empty-target", "lookalike-key", "key-in-host", "recursive-checked", "fixed-point-checked", "step-counter-armed", "scheme-less-relative"]
 PROBE_FLOORS = ["infer_redirection"]
 
 KEYS = ["url", "u", "l", "q", "next", "redirect", "redirect_to", "target", "redir", "link", "orig", "goto", "URL", "Next", "U",
@@ -69,6 +69,7 @@ def build(key, pos, target, enc=1):
 
 
 VALUE_RE = re.compile(r"=([^&]*)")
+PROTO_RE = re.compile(r"^[a-zA-Z]{0,64}:?//")
 
 
 def one_step_ok(u, r):
@@ -88,6 +89,9 @@ def one_step_ok(u, r):
         cands = {t, "https://" + t}
         try:
             cands.add(urljoin(u, t))
+            if not PROTO_RE.match(u):
+                # a URL without protocol is joined as if it had one (otherwise it would be read as a path)
+                cands.add(urljoin("http://" + u, t)[7:])
         except ValueError:
             pass
         if r in cands:
@@ -123,7 +127,7 @@ def classify_step(u, r):
             return "step-http"
         if t.startswith("/") and r != t:
             try:
-                if r == urljoin(u, t):
+                if r == urljoin(u, t) or (not PROTO_RE.match(u) and r == urljoin("http://" + u, t)[7:]):
                     return "step-relative"
             except ValueError:
                 pass
@@ -134,6 +138,55 @@ def classify_step(u, r):
     return "step-other"
 
 
+class StepBoundExceeded(Exception):
+    pass
+
+
+class StepCounter(object):
+    """Counts executed source lines of infer_redirection per top-level call (sys.monitoring LINE events, tool id 4) and aborts
+    the call by raising from the callback once the logical step bound is exceeded: a loop that never ends is observed as a
+    counted-steps violation, not as a wall-clock timeout."""
+    TOOL = 4
+
+    def __init__(self, fn):
+        self.code = getattr(fn, "__code__", None)
+        self.n = 0
+        self.bound = 10 ** 9
+        self.on = False
+
+    def start(self):
+        if self.code is None:
+            return
+        mon = sys.monitoring
+        mon.use_tool_id(self.TOOL, "verif-steps")
+        mon.register_callback(self.TOOL, mon.events.LINE, self._line)
+        mon.set_local_events(self.TOOL, self.code, mon.events.LINE)
+        self.on = True
+
+    def stop(self):
+        if not self.on:
+            return
+        mon = sys.monitoring
+        mon.set_local_events(self.TOOL, self.code, 0)
+        mon.register_callback(self.TOOL, mon.events.LINE, None)
+        mon.free_tool_id(self.TOOL)
+        self.on = False
+
+    def arm(self, bound):
+        self.n = 0
+        self.bound = bound
+
+    def _line(self, code, line):
+        self.n += 1
+        if self.n > self.bound:
+            self.n = 0
+            raise StepBoundExceeded()
+
+
+STEPS = [None]
+LINES_PER_STEP = 80  # generous: one inference step executes < 40 lines of infer_redirection
+
+
 def check(ctx, fn, pr, u, shape):
     wit = {"url": u, "shape": shape}
     bound = len(u) + 2
@@ -142,8 +195,14 @@ def check(ctx, fn, pr, u, shape):
     for rec in (True, False):
         pr.reset_depth("infer_redirection")
         ctx.ev()
+        if STEPS[0] is not None:
+            STEPS[0].arm(LINES_PER_STEP * (bound + 2))
         try:
             r = fn(u, recursive=rec)
+        except StepBoundExceeded:
+            ctx.viol("C15:step-bound-exceeded:%s" % shape, dict(wit, recursive=rec), {"lines_executed_over": LINES_PER_STEP * (bound + 2)})
+            results[rec] = None
+            continue
         except RecursionError:
             ctx.viol("C15:unbounded-recursion:%s" % shape, dict(wit, recursive=rec), {"max_depth_seen": pr.maxdepth["infer_redirection"]})
             results[rec] = None
@@ -167,6 +226,8 @@ def check(ctx, fn, pr, u, shape):
     if results[False] is None:
         return
     # (2)+(3) iterate the non-recursive function: provenance of every step, stationarity, no cycle
+    if STEPS[0] is not None:
+        STEPS[0].arm(10 ** 9)  # the iteration below is bounded by its own step count
     chain = [u]
     x = u
     final = None
@@ -200,8 +261,13 @@ def check(ctx, fn, pr, u, shape):
         ctx.viol("C15:recursive-differs-from-iteration:%s" % shape, wit, {"recursive": r, "iteration": chain + [final] if len(chain) < 6 else [chain[0], "...", final]})
     ctx.count("fixed-point-checked")
     for rec in (True, False):
+        if STEPS[0] is not None:
+            STEPS[0].arm(LINES_PER_STEP * (len(r) + 4))
         try:
             r2 = fn(r, recursive=rec)
+        except StepBoundExceeded:
+            ctx.viol("C15:step-bound-exceeded:on-own-result", {"url": r, "shape": shape, "recursive": rec}, {"from": u})
+            continue
         except RecursionError:
             ctx.viol("C15:unbounded-recursion:on-own-result", {"url": r, "shape": shape, "recursive": rec}, {"from": u})
             continue
@@ -216,7 +282,8 @@ AMP = ["https://www-lemonde-fr.cdn.ampproject.org/c/s/www.lemonde.fr/x.html", "h
        "https://a.cdn.ampproject.org/c/s/", "https://a.cdn.ampproject.org/c/", "https://bc.marfeelcache.com/amp/www.lemonde.fr/x", "https://bc.marfeel.com/www.lemonde.fr/x", "https://bc.marfeel.com/",
        "https://a.cdn.ampproject.org/c/s/b.org/?url=https%3A%2F%2Fc.net%2Fz", "https://a.cdn.ampproject.org/c/s/a.cdn.ampproject.org/c/s/b.org/x", "https://A.CDN.AMPPROJECT.ORG/C/S/b.org/x",
        "https://www.youtube.com/redirect?q=b.org%2Fx", "https://www.youtube.com/redirect?q=https%3A%2F%2Fb.org%2Fx&v=1", "http://google.com/url?q=https%3A%2F%2Fb.org", "http://a.com/?q=https%3A%2F%2Fb.org",
-       "http://a.com/redirect/x?q=/y", "http://a.com/?u=//&u=/x", "http://a&u=/x", "http://a.com/p?u=%2Fp%3Fu%3D%252Fp", "", " ", "u=", "=", "?u=/", "http://a.com/?u=/?u=/?u=/", "/?u=/x", "http://bad]host/?next=/foo", "http://[::1/?u=/x&url=%2Fy"]
+       "http://a.com/redirect/x?q=/y", "http://a.com/?u=//&u=/x", "http://a&u=/x", "http://a.com/p?u=%2Fp%3Fu%3D%252Fp", "", " ", "u=", "=", "?u=/", "http://a.com/?u=/?u=/?u=/", "/?u=/x", "http://bad]host/?next=/foo", "http://[::1/?u=/x&url=%2Fy", "a.fr/login?next=/home", "a.fr?u=/p", "user:pw@a.fr/x?u=/p&b=1", "//a.fr/?u=/p",
+       "https://t.co/r?url=http%3A%2F%2Fcarrier.com%26next%3D%2Fhome", "HTTP://carrier.com&next=/home"]
 
 
 def run(ctx):
@@ -226,6 +293,9 @@ def run(ctx):
     pr = Probes()
     pr.watch("ural.infer_redirection:infer_redirection", want_args=False)
     pr.start()
+    STEPS[0] = StepCounter(fn)
+    STEPS[0].start()
+    ctx.count("step-counter-armed", 1 if STEPS[0].on else 0)
     rng = ctx.rng
     try:
         def do(u, shape, cls):
@@ -235,6 +305,8 @@ def run(ctx):
         if ctx.shard == 0:
             for u in AMP:
                 do(u, "directed", "directed")
+                if not PROTO_RE.match(u) and "=/" in u:
+                    ctx.count("scheme-less-relative")
             ctx.sample("directed", AMP[:6])
         idx = 0
         n1 = n2 = 0
@@ -276,7 +348,7 @@ def run(ctx):
                     ctx.sample("depth-2-%d" % (n2 // 2000 % 3), u)
         ctx.exhaustive_space("depth 2: 6x5 outer x 6x5x8 inner x 4 encoding pairs", n2)
         n = 0
-        lim = 30000 if ctx.tier == "quick" else 10 ** 7
+        lim = 12000 if ctx.tier == "quick" else 10 ** 7
         while ctx.time_left() and n < lim:
             n += 1
             depth = rng.randint(3, 4)
@@ -291,6 +363,7 @@ def run(ctx):
             if n % 300 == 1:
                 ctx.sample("random-deep-%d" % (n // 300 % 3), t)
     finally:
+        STEPS[0].stop()
         pr.stop()
     return {"probes": pr.report(), "maxdepth": {"infer_redirection": ctx.notes.get("max_depth", 0)}}
 
@@ -302,7 +375,10 @@ def replay(ctx, witness):
     pr = Probes()
     pr.watch("ural.infer_redirection:infer_redirection", want_args=False)
     pr.start()
+    STEPS[0] = StepCounter(fn)
+    STEPS[0].start()
     try:
         check(ctx, fn, pr, witness["url"], witness.get("shape", "replay"))
     finally:
+        STEPS[0].stop()
         pr.stop()
